@@ -149,7 +149,7 @@ func (g *G) wrap(x X, min int) []Tok {
 var colNames = []string{"a", "b", "c", "d", "id", "name", "price", "qty", "total", "created_at", "x1", "col_2"}
 var tblNames = []string{"t", "u", "orders", "users", "items", "sales", "emp", "dept", "_migrations", "users_with_roles", "t_with_1_joins"}
 var fnNames = []string{"f", "COUNT", "SUM", "MAX", "COALESCE", "lower", "abs", "ROUND", "concat", "my_func"}
-var typeNames = []string{"INT", "TEXT", "VARCHAR(10)", "NUMERIC(10,2)", "BIGINT", "DATE", "BOOLEAN"}
+var typeNames = []string{"INT", "TEXT", "VARCHAR(10)", "NUMERIC(10,2)", "BIGINT", "DATE", "BOOLEAN", "INT[]", "TEXT[]"}
 
 func (g *G) pick(xs []string) string { return xs[g.R.Intn(len(xs))] }
 
@@ -650,7 +650,7 @@ func (g *G) Val(d int) X {
 		}
 	case 6:
 		if g.ok("cast") {
-			return g.Cast(g.Val(d-1), g.pick([]string{"INT", "TEXT", "BIGINT", "DATE", "VARCHAR(10)", "NUMERIC(10,2)"}))
+			return g.Cast(g.Val(d-1), g.pick([]string{"INT", "TEXT", "BIGINT", "DATE", "VARCHAR(10)", "NUMERIC(10,2)", "INT[]"}))
 		}
 	case 7, 8:
 		return g.randCall(d)
